@@ -54,6 +54,10 @@ func ruleOU2(c *Ctx) {
 			for _, sv := range errorSourceValues(r) {
 				cl, ok := sv.(*ssa.Call)
 				if !ok {
+					// an error handed in and handed back (a flag-error hook returning the error it was given) is propagation
+					if prm, isPrm := sv.(*ssa.Parameter); isPrm && prm.Type().String() == "error" {
+						continue
+					}
 					bad = "returns a value that is not a call result"
 					continue
 				}
